@@ -13,6 +13,11 @@ CLAIMED = {
          "DESIGN.md §3 C08, §2.1 E-PANIC"),
 }
 
+CLAIMED["C19"] = ("static: E-PANIC obligations over stdmath + constant-table agreement (go/constant over composite literals) + effect/purity rules on Eval methods, operator functions and the simplifier probe + error-return discipline over go/cfg facts",
+  "Decides crash-freedom obligations of the formula engine, agreement of the operator tables with each other, with the tokenizer window and with the documented precedence, the structural soundness conditions of constant folding (pure operators, counted lookups, fold only under zero lookups) and that failure returns carry non-nil errors. Necessary conditions of the property, exhaustive over the code, not over formulas.",
+  "Trusts package math, go/types constant evaluation, the compiler's prove pass and the reviewed entries. Does not decide that parsing follows the documented precedence for every token sequence.",
+  "DESIGN.md §3 C19")
+
 PENDING_REASON = "static check for this property is designed in DESIGN.md §3 but not yet built in this revision of /verif; not claimed until it runs"
 
 def main():
